@@ -25,7 +25,8 @@
 
    FIXED = TRUE  : the tree with proposed/C02/fix-*.diff applied
    FIXED = FALSE : the pinned tree (D05 rows, signed u64 paths, NaN-blind
-                   cmp_zero and long double == / !=) - the sensitivity control
+                   cmp_zero and long double == / !=, x++ as (x+1)-1) - the
+                   sensitivity control
    NEMINxx       : -emin (a .cfg file cannot spell a negative number)
    MUT           : "none", or one deliberately wrong variant (see Mut* below)  *)
 EXTENDS SoftFloatN
@@ -167,6 +168,12 @@ ArithI(t, op, x, y) ==
       rev == (MUT = "fsubp-fdivp" /\ t = "ldouble") \/ (MUT = "sse-operand-order" /\ t # "ldouble")
   IN IF rev /\ op \in {"sub", "div"} THEN Arith(F, op, y, x) ELSE Arith(F, op, x, y)
 NegI(t, x) == Neg(x)                                       \* xorps sign mask / fchs
+(* parse.c new_inc_dec: the value of x++ / x--.  Pinned: (x += addend) - addend, which is the old value only
+   when both operations are exact; fixed: the old value saved in a temporary before the object is updated. *)
+PostI(t, addend, x) ==
+  LET F == Fmt(t)  one == IntToFloat(F, IVn(1)) IN
+  IF FIXED THEN x
+  ELSE IF addend = 1 THEN Sub(F, Add(F, x, one), one) ELSE Add(F, Sub(F, x, one), one)
 
 (* ---- typing: get_common_type's floating part, funcall's promotion ------------------------ *)
 CommonI(t1, t2) ==
